@@ -296,9 +296,24 @@ def canonical_problem(text):
     return None
 
 
+class Port(int):
+    """An int subclass that prints differently (an IntEnum member, a typed id): still the integer it is."""
+    def __str__(self):
+        return 'Port(%d)' % int(self)
+
+    __repr__ = __str__
+
+    def __format__(self, spec):
+        return format(int(self), spec) if spec else str(self)
+
+
 def check_ints(c, st):
     su = common.load('strutils')
     L = c['ints']
+    if c.get('int_types'):
+        # the same integers as bool / int-subclass instances where they can be (True is 1, False is 0)
+        L = [True if (x == 1 and i % 2) else False if (x == 0 and i % 2) else Port(x) if i % 3 == 0 else x for i, x in enumerate(L)]
+        st.count('int_lists_with_bool_and_int_subclass_elements')
     st.monitor_evals += 1
     f = outcome(lambda: su.format_int_list(L))
     if f[0] != 'ok':
@@ -481,7 +496,7 @@ def gen(r):
                 a = r.choice(edges)
                 windows.append([a, a + r.choice([16383, 16384, 16385, 20000, 50000, 100000])])
             windows.append([0, r.choice([16384, 16385, 65536, 100001])])
-        return {'kind': 'ints', 'ints': L, 'windows': windows}
+        return {'kind': 'ints', 'ints': L, 'windows': windows, 'int_types': r.random() < 0.2}
     return {'kind': 'gzip', 'size': r.choice([0, 1, 2, 100, 4096, 65535, 65536, r.randint(0, 70000)]),
             'style': r.choice(['random', 'text', 'run']), 'seed': r.randint(0, 10 ** 6),
             'levels': sorted(set([r.randint(1, 9), r.randint(1, 9), 6]))}
